@@ -16,7 +16,7 @@ sys.path.insert(0, os.path.dirname(os.path.abspath(__file__)))
 import vlib, xfrontcommon as X
 from vlib import Check
 
-QUICK = {'random': 4000, 'mutation': 6000, 'odd': 6000, 'exe': 2500, 'valgrind': 48, 'chunk': 9000}
+QUICK = {'random': 4000, 'mutation': 6000, 'odd': 6000, 'exe': 3400, 'valgrind': 48, 'chunk': 9000}
 THOROUGH = {'random': 60000, 'mutation': 90000, 'odd': 90000, 'exe': 24000, 'valgrind': 2000, 'chunk': 24000}
 
 
@@ -27,6 +27,8 @@ def fixed_cases():
             cases.append({'src': open(f, 'rb').read(), 'tag': 'corpus', 'name': os.path.basename(f)})
     for t, s in X.directed_odd():
         cases.append({'src': s, 'tag': 'directed', 'name': t})
+    for t, s in X.misuse_matrix():
+        cases.append({'src': s, 'tag': 'misuse', 'name': t})
     for u in X.UNTERMINATED:
         cases.append({'src': u, 'tag': 'unterminated', 'name': 'unterminated'})
     for k in X.NEST_KINDS:
@@ -205,7 +207,7 @@ def main():
             J.harness_case(c, r, m)
             c.pop('real', None)
         keep_n = max(2000, 3 * P['exe'] // max(1, (len(allcases) + P['chunk'] - 1) // P['chunk']))
-        kept += [c for c in chunk if c['tag'] in ('corpus', 'directed', 'unterminated', 'replay', 'nested', 'shipped')]
+        kept += [c for c in chunk if c['tag'] in ('corpus', 'directed', 'misuse', 'unterminated', 'replay', 'nested', 'shipped')]
         others = [c for c in chunk if c['tag'] in ('random', 'mutation', 'odd')]
         rng.shuffle(others)
         kept += others[:keep_n]
@@ -215,7 +217,7 @@ def main():
 
     # ---- executable level
     kept = [c for c in kept if c.get('cls') != 'hang']       # a hang is already reported; do not wait for it twice more
-    exe_sample = pick_sample(kept, P['exe'], rng, prefer=('corpus', 'directed', 'unterminated', 'replay', 'nested'))
+    exe_sample = pick_sample(kept, P['exe'], rng, prefer=('corpus', 'directed', 'misuse', 'unterminated', 'replay', 'nested'))
     wd = os.path.join(d, 'exe')
     os.makedirs(wd)
     er = X.run_exe(xcmp, [c['src'] for c in exe_sample], wd, timeout=60)
@@ -247,11 +249,14 @@ def main():
     ck.log('executable runs %d: %s' % (len(exe_sample), exe_dist))
 
     # ---- valgrind memcheck (uninitialised-value use) on a sample of the non-sanitized executable
-    vg_sample = pick_sample([c for c in kept if c['tag'] != 'nested' and len(c['src']) < 20000], P['valgrind'], rng, prefer=('corpus', 'replay'))
+    vg_pool = [c for c in kept if c['tag'] not in ('nested', 'misuse') and len(c['src']) < 20000]
+    vg_sample = pick_sample(vg_pool, P['valgrind'], rng, prefer=('corpus', 'replay'))
     if not ck.replay_arg:
         # the directed programs first: they are where reads of unset members are reachable
         dirs = [c for c in kept if c['tag'] == 'directed'][:max(10, P['valgrind'] // 2)]
         vg_sample = (dirs + [c for c in vg_sample if c['tag'] != 'directed'])[:P['valgrind']]
+        # and the misuse matrix (every declaration kind in every role): all of it in thorough, its first frame shape in quick
+        vg_sample += [c for c in kept if c['tag'] == 'misuse' and (ck.thorough() or c['name'].endswith('shape0'))]
     wd = os.path.join(d, 'vg')
     os.makedirs(wd)
     vr = X.run_exe(xcmp, [c['src'] for c in vg_sample], wd, valgrind=True, timeout=300)
@@ -319,7 +324,7 @@ def main():
         ck.broken.append('the extracted model gave no answer on %d sources' % J.model_bad)
 
     ck.cov['distinct_nontrivial'] = len(J.distinct)
-    ck.cov['rule'] = ('byte strings: corpus, directed odd programs (DESIGN C09 stream c), unterminated constructs, nesting depth 1..2000 of 14 constructs, shipped '
+    ck.cov['rule'] = ('byte strings: corpus, directed odd programs (DESIGN C09 stream c), the misuse matrix (11 declaration kinds x 28 syntactic roles x 3 frame shapes), unterminated constructs, nesting depth 1..2000 of 14 constructs, shipped '
                       'tests/x, well-formed programs of tools/xgen.py, random bytes/token soup, token-level mutations of shipped and xgen-generated programs, grammar-valid programs with names of '
                       'the wrong kind; distinct by content; every input is non-trivial (must end in accept or diagnostic)')
     ck.cov['input_distribution'] = J.dist
